@@ -29,8 +29,8 @@
    Text WITH numbering (end of file, proofs/TextNested.v): C04_text_nested -- `name{P}` for every payload P in
    which literal runs alternate with `$` counters, `$#` and `${n}` / `${n:placeholder}` fields at ANY depth of
    inner braces (the fact behind repair 86fc68a, `p{{$}}`), with C04_tokenize_nested, C04_nested_closing_brace,
-   C04_parse_nested, C04_nested_value_text, C04_nested_value_flat, C04_nested_scanner, C04_nested_repeated_partial (copy i
-   of `name{P}*N`, P without `$#`); C04_nested_extends_text_literal shows C04_text_literal is its one-run case; C04_attr_expr_nested /
+   C04_parse_nested, C04_nested_value_text, C04_nested_value_flat, C04_nested_scanner, C04_nested_repeated (copy i
+   of `name{P}*N`); C04_nested_extends_text_literal shows C04_text_literal is its one-run case; C04_attr_expr_nested /
    C04_tokenize_attr_nested: the same payloads as an `{expression}` attribute value `name[n={P}]` (proofs/AttrNested.v).
    Not covered by a theorem: `$` numbering / fields inside quoted / unquoted attribute values, text written
    between the attribute parts (`a{t}.c`), text under the haml / pug / slim formatters -- these are
@@ -484,20 +484,18 @@ Print Assumptions C04_nested_extends_text_literal.
    and a maxRepeat limit that does not cut it short: exactly N nodes, copy i (0-based) carrying the payload under the
    repeater stack [(N, i)]; by C04_nested_value_text its text is the literal runs, unescaped, with every counter --
    at whatever brace depth -- replaced by the value of copy i+1 (C02_counter_in_nested_text in props/C02.v).
-   _partial: stated for payloads without `$#` ([no_ph]; with `$#` the copy loop also records that the text was
-   taken -- that case is C04_wrap_implicit / C02_limit_full_with_wrap on the token tree of C04_parse_nested) and for
-   the element alone (no attributes / children beside the text).
-   Full statement: the same for every payload_ok P, `$#` included. *)
-Theorem C04_nested_repeated_partial :
+   Every payload of the domain, `$#` included (it stands for nothing: no wrap text).  Stated for the element alone
+   (attributes / children / siblings beside it: C01 spine + C02_limit_full on the token tree of C04_parse_nested). *)
+Theorem C04_nested_repeated :
   forall (jsx : bool) (env : cenv) (max_repeat : option N) (name : str) (P : payload) (ds : str),
-    name_ok name -> payload_ok P = true -> no_ph P = true -> all_digits ds -> ds <> [] -> ce_text env = WNone ->
+    name_ok name -> payload_ok P = true -> all_digits ds -> ds <> [] -> ce_text env = WNone ->
     let n := count_of ds in
     (Z.of_N n <= budget_of max_repeat)%Z ->
     parse_abbr jsx env max_repeat (name ++ c_lbrace :: payload_text P ++ c_rbrace :: c_star :: ds) =
       Ok (map (fun i => ANode (Some name) (nested_value [mkRep n i false] P) (Some (mkRep n i false)) None [] false)
               (nseq (N.to_nat n) 0%N)).
-Proof. exact text_nested_repeated. Qed.
-Print Assumptions C04_nested_repeated_partial.
+Proof. exact text_nested_repeated_full. Qed.
+Print Assumptions C04_nested_repeated.
 
 (* attr_expr_nested.  The same payloads as an `{expression}` ATTRIBUTE value, end to end (tokenize, parse, convert) on
    `name[n={P}]`: ONE node with the one attribute n whose value is the payload -- runs with escapes resolved and inner
@@ -528,7 +526,7 @@ Print Assumptions C04_tokenize_attr_nested.
 Definition nested_example : payload :=
   (S "a{", [(INum 1 false false [], S "}b{{"); (INum 2 true true [], S "}c}"); (IField (S "1") (Some (S "x{y}")), [])]).
 Example C04_nested_nonvacuous :
-  name_ok (S "p") /\ payload_ok nested_example = true /\ no_ph nested_example = true /\
+  name_ok (S "p") /\ payload_ok nested_example = true /\
   payload_text nested_example = S "a{$}b{{$$@-}c}${1:x{y}}" /\
   parse_abbr false (mkCenv WNone [] false) None (S "p{a{$}b{{$$@-}c}${1:x{y}}}") =
     Ok [ANode (Some (S "p")) (Some [VStr (S "a{1}b{{01}c}"); VField 1 (S "x{y}")]) None None [] false] /\
@@ -537,7 +535,7 @@ Example C04_nested_nonvacuous :
         ANode (Some (S "p")) (Some [VStr (S "a{2}b{{01}c}"); VField 1 (S "x{y}")]) (Some (mkRep 2 1 false)) None [] false].
 Proof.
   split; [split; [discriminate|repeat constructor]|].
-  split; [vm_compute; reflexivity|]. split; [vm_compute; reflexivity|].
+  split; [vm_compute; reflexivity|].
   split; [vm_compute; reflexivity|]. split; vm_compute; reflexivity.
 Qed.
 
